@@ -22,6 +22,7 @@ type c06input struct {
 	Bytes   []byte
 	Tail    []byte // bytes following the handshake (VALID only): must reach the next layer intact
 	SrvCert bool   // server role: the server has a certificate (it can offer StartTLS)
+	Stall   bool   // the peer sends what it has and then neither sends more nor hangs up
 }
 
 // ---- generators (server role: the bytes a client sends)
@@ -100,7 +101,7 @@ func genServerRoleInput(c *Chooser) c06input {
 	case 3:
 		full := validA() + validU()
 		cut := c.Pick(len(full), "truncate-at")
-		return c06input{Class: "INVALID", Kind: "truncated", Bytes: []byte(full[:cut])}
+		return c06input{Class: "INVALID", Kind: "truncated", Bytes: []byte(full[:cut]), Stall: c.Chance(1, 2, "stalls-instead-of-hanging-up")}
 	case 4:
 		return c06input{Class: "AMBIGUOUS", Kind: "oversized-header", Bytes: []byte("X-SOCKETACE / HTTP/1.1\r\nAccepts-Protocol-Version: " + c06Version + "\r\nX-Big: " + strings.Repeat("a", 5000+c.Pick(70000, "big")) + "\r\n\r\n" + validU())}
 	case 5:
@@ -176,7 +177,7 @@ func genServerRoleInput(c *Chooser) c06input {
 		return c06input{Class: "AMBIGUOUS", Kind: "mutated", Bytes: b}
 	case 14:
 		// first request alone, nothing else ever
-		return c06input{Class: "INVALID", Kind: "announce-only", Bytes: []byte(validA())}
+		return c06input{Class: "INVALID", Kind: "announce-only", Bytes: []byte(validA()), Stall: c.Chance(1, 2, "stalls-instead-of-hanging-up")}
 	}
 	// security header the server cannot honour (no certificate configured)
 	s := validA() + strings.Replace(validU(), "User-Agent:", "Security: StartTLS\r\nUser-Agent:", 1)
@@ -209,7 +210,7 @@ func genClientRoleInput(c *Chooser) c06input {
 		return c06input{Class: "INVALID", Kind: "second-status-not-101", Bytes: []byte(r200("200 OK", c06Version) + r101(st))}
 	case 5:
 		full := r200("200 OK", c06Version) + r101("101 Switching Protocols")
-		return c06input{Class: "INVALID", Kind: "truncated", Bytes: []byte(full[:c.Pick(len(full), "truncate-at")])}
+		return c06input{Class: "INVALID", Kind: "truncated", Bytes: []byte(full[:c.Pick(len(full), "truncate-at")]), Stall: c.Chance(1, 2, "stalls-instead-of-hanging-up")}
 	case 6:
 		line := []string{"HTTP/1.1", "HTTP/1.1 200", "HTTP/1.1 abc OK", "HTTP/1.1  200 OK", "200 OK", " ", "HTTP/1.1 99999999999999999999 OK", "HTTP/1.1 -200 OK"}[c.Pick(8, "bad-status-line")]
 		return c06input{Class: "INVALID", Kind: "malformed-status-line", Bytes: []byte(line + "\r\n\r\n" + r101("101 Switching Protocols"))}
@@ -388,6 +389,23 @@ func runHandshake(r *Run, role string, in c06input, seg int, secure bool) c06out
 		}
 		if back.FinPending {
 			n.DeliverFin(a.In())
+			continue
+		}
+		if !closed && in.Stall {
+			// nothing more will come, and the peer does not hang up either: the code under test has to give it
+			// up by itself, within its handshake bound (30 s) - two simulated minutes are allowed
+			closed = true
+			t := time.NewTimer(2 * time.Minute)
+			select {
+			case result = <-done:
+				got = true
+			case <-t.C:
+				got = true
+				result = res{err: fmt.Errorf("handshake goroutine never returned")}
+				r.FailSig("stalled-peer-never-given-up", fmt.Sprintf("role=%s kind=%s", role, in.Kind), "the peer sent %d bytes of an incomplete exchange (%s) and fell silent without hanging up; two simulated minutes later the %s side is still waiting for it", len(in.Bytes), in.Kind, role)
+			}
+			t.Stop()
+			a.Close()
 			continue
 		}
 		if !closed {
